@@ -689,4 +689,66 @@ def r3s(F):
     return r
 
 
-RULES = [r1, r1h, r2, r3, r3s, r4, r84, r85]
+R3T_EXEMPT = {
+    "Expression::Module.out_constraint": "the constraint on a module's out expression is enforced by the static checker (ModuleDef::derive_shape); "
+                                          "the translator emits no runtime check for it",
+}
+
+
+def r3t(F):
+    from . import c09
+    r = RuleResult("R3t", "the translator compiles every child of every node",
+                   "for every variant of Statement / Expression / Value (and the nested FuncOpDef, FormatArgs, ConstraintArm): every child "
+                   "that can hold an expression is handed to a translate_* call, and for a plain (non-optional, non-collection) child on "
+                   "every path through the arm except those that emit the build-error opcode: an arm that returns early with a constant "
+                   "never evaluates the child, so a failing child no longer fails the build", floor=40, exhaustive=True)
+    memo = {}
+    T = TR.T
+    roots = ((T + "translate_stmt", c09.STMT), (T + "translate_expr", c09.EXPR), (T + "translate_value", c09.VALUE))
+    for fname, enum in roots:
+        fn = F.fn(fname)
+        o = Origins(fn)
+        rec = TR.rec_calls(fn)
+        bang = {x["bb"] for x in TR.pushes(fn) if x["op"] == "Bang"}
+        exits = set(cfg.exits(fn))
+        all_arms = TR.arms(fn, enum)
+        for variant in F.variants(enum):
+            need(variant in all_arms, "%s has no arm for %s" % (fname.split("::")[-1], variant))
+            arm = TR.arm_blocks(fn, enum, variant)
+            for path, field, kind, ty in c09._leaves(F, enum, variant, [], memo):
+                blocks = set(arm)
+                ent = all_arms[variant][0][1]
+                for p in path:
+                    if p[0] == "arm":
+                        blocks &= TR.arm_blocks(fn, p[1], p[2])
+                        ent = TR.arms(fn, p[1])[p[2]][0][1]
+                label = "%s::%s" % (enum.split("::")[-1], variant) + "".join(
+                    "." + (p[1] if p[0] == "field" else p[2]) for p in path) + "." + field
+                if label in R3T_EXEMPT:
+                    r.inst(label, fn.where(), True, "exempt: " + R3T_EXEMPT[label], nontrivial=False)
+                    continue
+                hits = set()
+                for x in rec:
+                    b = x["bb"]
+                    if b not in blocks:
+                        continue
+                    labs = set()
+                    for a in x["term"]["args"]:
+                        labs |= o.at(a, b)
+                    if ("field", field) in labs and all(("field", p[1]) in labs for p in path if p[0] == "field"):
+                        hits.add(b)
+                plain = "Option" not in ty and "Vec<" not in ty and kind in ("expr", "value")
+                if not hits:
+                    r.inst(label, fn.where(ent), False, "%s is never translated: it is not evaluated at all" % label)
+                    continue
+                if not plain:
+                    r.inst(label, fn.where(min(hits)), True, "translated (optional / repeated child)")
+                    continue
+                ok = not (cfg.reachable(fn, ent, removed=hits | bang) & exits)
+                r.inst(label, fn.where(min(hits)), ok, "translated on every path" if ok else
+                       "a path through the arm of %s leaves without translating %s (and without emitting a build error): the child is "
+                       "not evaluated on that path, so a failure inside it is lost" % (label.rsplit(".", 1)[0], field))
+    return r
+
+
+RULES = [r1, r1h, r2, r3, r3s, r3t, r4, r84, r85]
